@@ -201,7 +201,7 @@ def run_cases(tag, imports, defs, cases, chunk=400, timeout=600):
         name = "cases_%s_%d.v" % (tag, k // chunk)
         p = os.path.join(LIVE, name)
         with open(p, "w") as fh:
-            fh.write("From Coq Require Import PrimFloat List Bool ZArith.\nImport ListNotations.\n")
+            fh.write("From Coq Require Import PrimFloat List Bool ZArith.\nImport ListNotations.\nFrom MuxV Require Import Base.FInst.\n")
             for im in imports:
                 fh.write(im + "\n")
             fh.write("Local Open Scope float_scope.\n")
